@@ -354,12 +354,14 @@ class Env:
           erows, columns=['geo', 'control', 'treatment', 'exclude'])
     else:
       self._elig0 = None
+    self._ref_mods = None
     self._par_kwargs = {}
     for k, v in desc['par'].items():
       self._par_kwargs[k] = tuple(v) if isinstance(v, list) else v
 
   def set_parameters(self, kwargs):
     self._par_kwargs = dict(kwargs)
+    self._ref_mods = None
 
   def frame(self):
     return self._df0.copy(deep=True)
@@ -387,8 +389,20 @@ class Env:
     return (mods or self.mods)[3].TBRMMDesignParameters(**self._par_kwargs)
 
   def build_reference(self):
-    """A freshly built object in a freshly loaded, private module set."""
-    return self.build(tuple(core.reference_modules(*MODULES)))
+    """A freshly built object in the run's private reference module set.
+
+    One reference module set per run (renewed when the caller's parameters
+    are re-baselined): it isolates every reference object from whatever the
+    object under test, or its siblings, left in process-global state.  The
+    inputs of all reference objects of a run are identical, so on code without
+    process-global state nothing can differ between them; on code WITH such
+    state an earlier reference object may contaminate a later one, which can
+    only produce a (deterministic, replayable) disagreement -- on code that
+    has the defect.
+    """
+    if self._ref_mods is None:
+      self._ref_mods = tuple(core.reference_modules(*MODULES))
+    return self.build(self._ref_mods)
 
   def build(self, mods=None):
     """(mm, caller's frame, caller's table, caller's parameter object)."""
